@@ -489,7 +489,8 @@ theorem skel_Channel_process_data_events : Gen.Skel.Channel_process_data_events 
 
 theorem skel_Channel_start_consuming : Gen.Skel.Channel_start_consuming =
   ["while", "r:is_closed", "do", "call:process_data_events", "if", "r:consumer_tags", "then",
-    "call:time.sleep", "continue", "endif", "break", "endwhile"] := by decide
+    "call:time.sleep", "continue", "endif", "break", "endwhile", "if", "r:exceptions", "then",
+    "call:check_for_errors", "endif"] := by decide
 
 theorem skel_BaseChannel_add_consumer_tag : Gen.Skel.BaseChannel_add_consumer_tag =
   ["if", "then", "raise:AMQPChannelError", "endif", "if", "r:_consumer_tags", "then",
